@@ -402,11 +402,20 @@ type Raw interface {
 	Peek(p unsafe.Pointer, ps ...unsafe.Pointer) uintptr
 }
 
+// D33 (repaired): unnamed parameters whose type nests unsafe.Pointer
+type RawBatch interface {
+	Batch([]unsafe.Pointer) error
+	Index(map[string]unsafe.Pointer, chan unsafe.Pointer)
+	Flat(unsafe.Pointer, [2]unsafe.Pointer)
+}
+
 type Indexed[K ~int | ids.ID, V any] interface {
 	Find(k K) (V, bool)
 }
 """
 case("fixed-walk-raw", "adv/fixed", ["Raw"])
+case("fixed-rawbatch", "adv/fixed", ["RawBatch"])
+case("fixed-rawbatch-m", "adv/fixed", ["RawBatch"], pkg="mocks", stub=True, resets=True)
 case("fixed-walk-union", "adv/fixed", ["Indexed"])
 case("fixed-walk-both", "adv/fixed", ["Indexed", "Raw"], pkg="mocks", stub=True, resets=True)
 case("fixed-lower", "adv/fixed", ["Lower"], skip=True)
@@ -871,6 +880,19 @@ type Tagged interface {
 """
 flagsets("unicode", "adv/unicode", ["Café"], modes=("", "mocks"))
 flagsets("unicode-tag", "adv/unicode", ["Tagged"], modes=("", "mocks"))
+# letters without case (a type name that de-capitalising cannot change: it gets the MoqParam suffix)
+FILES["adv/unicode/b.go"] = """package unicode
+
+type ℝ float64
+
+type 数 int
+
+type Metric interface {
+	Abs(ℝ) ℝ
+	Scale(ℝ, 数, []ℝ) (数, error)
+}
+"""
+flagsets("unicode-caseless", "adv/unicode", ["Metric"], modes=("",))  # caseless letters are not exported: in place only
 
 # the usual layout: a sub-directory called like the -pkg value already holds that package
 FILES["adv/withmocks/a.go"] = """package withmocks
@@ -928,6 +950,117 @@ var _ v1.T
 """
 case("goimp", "adv/goimp", ["Store"])
 CASES[-1]["fmts_always"] = True
+
+# ---- late re-aliasing: a package that is printed under one qualifier when a variable is
+# allocated and re-aliased later in the same run (by a later method, a later interface, or by
+# the sync import).  Anything that renders a type, a constraint, the self-check argument or the
+# source qualifier before the run is over shows here, in every position a type can take:
+# variadic tail, result, nested function, map/pointer, constraint, self-check line.
+EXTRA_DEPS["dep/one/codec"] = ("codec", "type Key interface{ String() string }\ntype T struct{}\n")
+EXTRA_DEPS["dep/two/codec"] = ("codec", "type T struct{}\ntype Frame struct{}\n")
+FILES["adv/late/f0.go"] = """package late
+
+import "example.com/m/dep/one/client"
+
+type Emitter interface {
+	Emit(prefix string, events ...client.T)
+	Fetch() (client.T, error)
+	Wrap(f func(client.T) []client.T) map[string]*client.T
+}
+"""
+FILES["adv/late/f1.go"] = """package late
+
+import "example.com/m/dep/two/client"
+
+type Zed interface{ Zap(x client.T) }
+
+type Late interface {
+	Emitter
+	Zed
+}
+"""
+FILES["adv/late/f2.go"] = """package late
+
+import "example.com/m/dep/one/codec"
+
+type Repo[K codec.Key] interface {
+	Get(k K) codec.T
+	Put(ks ...codec.T)
+}
+"""
+FILES["adv/late/f3.go"] = """package late
+
+import "example.com/m/dep/two/codec"
+
+type Framer interface{ Frame(f codec.Frame, fs ...codec.T) }
+"""
+flagsets("late-one", "adv/late", ["Late"])
+flagsets("late-two", "adv/late", ["Emitter", "Zed"])
+flagsets("late-gen", "adv/late", ["Repo", "Framer"])
+case("late-gen-rev", "adv/late", ["Framer", "Repo"])
+case("late-all", "adv/late", ["Repo", "Emitter", "Framer", "Zed"], pkg="mocks", stub=True, resets=True)
+
+# a source package that is itself called sync: the sync import is registered last and
+# re-aliases the source package's import after everything else was allocated
+FILES["adv/sync/store.go"] = """package sync
+
+type T struct{}
+
+type Store interface {
+	Load(key string) (T, bool)
+	Keep(ts ...T)
+}
+
+type Empty interface{}
+"""
+FILES["adv/sync/mocks/doc.go"] = """package mocks
+"""
+FILES["adv/sync/sync_test/doc.go"] = """package sync_test
+"""
+flagsets("srcsync", "adv/sync", ["Store"], modes=("", "mocks", "sync_test"))
+case("srcsync-empty", "adv/sync", ["Empty", "Store"], pkg="mocks")
+
+# the same path imported under two different aliases by two files (later file wins: a function
+# of the file order, not of chance)
+FILES["adv/twoalias/a.go"] = """package twoalias
+
+import ca "example.com/m/dep/alpha"
+
+type A interface{ One(t ca.T) }
+"""
+FILES["adv/twoalias/b.go"] = """package twoalias
+
+import cb "example.com/m/dep/alpha"
+
+type B interface{ Two(t cb.T) }
+
+type Both interface {
+	A
+	B
+}
+"""
+FILES["adv/twoalias/c.go"] = """package twoalias
+
+import "example.com/m/dep/alpha"
+
+type C interface{ Three(t alpha.T) }
+"""
+case("twoalias-both", "adv/twoalias", ["Both"])
+case("twoalias-c", "adv/twoalias", ["C", "A"], pkg="mocks", stub=True)
+
+# results and variadic tails of every shape under -stub: the zero-value block and the return
+# statement are written from the RESULT list, the call from the PARAMETER list
+FILES["adv/stubshape/a.go"] = """package stubshape
+
+type Splitter interface {
+	Split(s string, seps ...string) (int, []string)
+	Join(parts ...[]string) []string
+	Tail(xs ...int) (rest []int)
+	Pairs(kv ...map[string][]int) (first map[string][]int, all []map[string][]int)
+	None(vs ...interface{})
+}
+"""
+flagsets("stubshape", "adv/stubshape", ["Splitter"])
 
 
 def write_all(root, write):
